@@ -65,6 +65,9 @@ class SessionProp(Prop):
         ops = [tup(o) for o in ops]
         w = sim.run_case(dict(cfg), ops)
         vd = Verdict()
+        if w.too_big:
+            vd.label("case_aborted_too_many_events")
+            return vd
         F = Facts(w)
         self.monitor(w, F, vd)
         if w.budget_hit:
@@ -300,6 +303,208 @@ class C18(SessionProp):
             "packet types on one stream.")
 
 
+
+T_SUB = G.Table([
+    (10, G.o_subscribe), (8, G.o_unsubscribe), (8, G.o_suback), (8, G.o_unsuback), (3, G.o_ack_good),
+    (4, G.o_window), (3, G.o_fire), (2, G.o_advance_small), (3, G.o_lose_reconnect_persist),
+    (3, G.o_lose_reconnect_clean), (1, G.o_lose), (1, G.o_reconnect), (1, G.o_settle), (1, G.o_publish_q12),
+])
+
+
+class C07(SessionProp):
+    id = "C07"
+    monitor = staticmethod(M.mon_c07)
+    table = T_SUB
+    profiles = (1, 3)
+    tail = (("settle", 0), ("idle", 3000.0))
+    rule = ("Histories over subscribe (3 argument shapes, 1..5 topics, QoS 0..2, non-ASCII) and unsubscribe (2 "
+            "shapes), SUBACK/UNSUBACK oldest/newest/k-th/duplicate/foreign-id with granted lists of the request's "
+            "or of any length 0..8 over {0,1,2,0x80}, window changes 1..16 with requests pending, retry expiries, "
+            "loss + reconnect under both session modes; every history ends with the broker answering everything "
+            "and a 3000 s idle tail. Oracle: model of the pending sets and window (accepted below the window: one "
+            "packet naming the topics in order under Deferred.msgId; otherwise MQTTWindowError and no write), "
+            "success only inside the delivery of the SUBACK/UNSUBACK with its id and with the pairs of that "
+            "packet's own codes, foreign acks inert, after a loss failed or resent, never pending at the end. "
+            "Non-trivial = a foreign/duplicate ack, a window change with requests pending, or a loss with requests "
+            "pending.")
+
+
+T_INB = G.Table([
+    (14, G.o_inpub), (8, G.o_inpub_q2), (10, G.o_inrel), (2, G.o_lose_reconnect_persist), (2, G.o_lose_reconnect_clean),
+    (1, G.o_handlers), (1, G.o_publish), (1, G.o_subscribe), (1, G.o_fire), (1, G.o_ack_good),
+])
+
+
+class C06(SessionProp):
+    id = "C06"
+    monitor = staticmethod(M.mon_c06)
+    table = T_INB
+    profiles = (1, 3)
+    rule = ("Histories of inbound PUBLISH (QoS 0/1/2, DUP, RETAIN, ids from a pool of three so that they are "
+            "reused and interleaved, topics incl. non-ASCII and 300 bytes, payloads 0..100 kB) and PUBREL (oldest/"
+            "newest/k-th stored, repeated, unknown id), repeats of a QoS 2 PUBLISH before its PUBREL, loss + clean/"
+            "persistent reconnect inside exchanges; plus all sequences up to length 5/6 over a 10-op alphabet "
+            "(exhaustive). Oracle: reference model of a method-B receiver (exact callback arguments, one PUBACK/"
+            "PUBREC/PUBCOMP per packet echoing the id, QoS 2 delivered once per exchange, nothing unprompted). "
+            "Non-trivial = a repeat, an unknown-id PUBREL, two interleaved exchanges or a reconnect inside an "
+            "exchange.")
+    EX_ALPHA = [
+        [("rx", 0, "PUBLISH", 0, 0, 0)], [("rx", 0, "PUBLISH", 1, 3, 0)],
+        [("rx", 0, "PUBLISH", 2, 0, 0)], [("rx", 0, "PUBLISH", 2, 5, 1)],
+        [("rx", 0, "PUBREL", 0, 0, 0)], [("rx", 0, "PUBREL", 1, 0, 0)], [("rx", 0, "PUBREL", 3, 0, 0)],
+        [("rx", 0, "PUBREL", 4, 0, 0)],
+        [("lose", 0, 1), ("build", 0), ("handlers", 0, 7), ("connect", 0, 0, 0, 0), ("rx", 0, "CONNACK", 0, 1)],
+        [("lose", 0, 0), ("build", 0), ("handlers", 0, 7), ("connect", 0, 0, 1, 0), ("rx", 0, "CONNACK", 0, 0)],
+    ]
+    CFGS = [dict(profile=1, version=4, jitter=0.25), dict(profile=3, version=3, jitter=0.25)]
+
+    def exhaustive_specs(self, tier, seed):
+        return self.product_specs("in", self.CFGS, None, self.EX_ALPHA, 4 if tier == "quick" else 6, None, nsplit=2)
+
+    def run_exhaustive(self, spec, res):
+        pre = G.preamble({}, dict(handlers=7, clean=0))
+        return self.run_product(spec, res, self.CFGS, pre, self.EX_ALPHA, [])
+
+
+T_HS = G.Table([
+    (10, G.o_connack), (3, G.o_connack_ok), (6, G.o_advance), (5, G.o_fire), (6, G.o_lose), (3, G.o_handlers),
+    (4, G.o_reconnect_noack), (2, G.o_reconnect), (3, G.o_publish), (2, G.o_subscribe), (2, G.o_ack_good),
+    (1, G.o_disconnect), (1, G.o_pingresp),
+])
+
+
+class C04(SessionProp):
+    id = "C04"
+    monitor = staticmethod(M.mon_c04)
+    table = T_HS
+    max_words = 25
+    tail = (("idle", 200.0),)
+    pre_kwargs = dict(connack=(False, False, True), keepalives=(0, 7, 0, 1, 60))
+    rule = ("Exhaustive: 3 profiles x 2 versions x keepalive {0,7} x 256 return codes x session-present {0,1} "
+            "single-CONNACK cases, and all orderings up to length 4/5 of {CONNACK 0, CONNACK 5, CONNACK 200, "
+            "expiry, advance short of expiry, loss (3 reasons), handler set/unset} after connect(); generated: the "
+            "same events mixed with traffic, losses at any point of established sessions, reconnects. Oracle: one "
+            "CONNECT equal to the reference encoding; the Deferred fires once (code 0: session-present; other: "
+            "MQTTStateError and idle; no CONNACK by keepalive-or-10 s: MQTTTimeoutError at that instant + close); "
+            "second CONNACK inert; after each loss idle and, if a handler was set, exactly one onDisconnection "
+            "with that reason after the pending requests. Non-trivial = any case other than {code 0, no loss}.")
+    EX_ALPHA = [
+        [("rx", 0, "CONNACK", 0, 0)], [("rx", 0, "CONNACK", 5, 0)], [("rx", 0, "CONNACK", 200, 1)],
+        [("fire", 1)], [("advance", 9)], [("lose", 0, 0)], [("lose", 0, 1)], [("handlers", 0, 0)], [("handlers", 0, 7)],
+        [("advance", 1)],
+    ]
+    CFGS = [dict(profile=p, version=v, jitter=0.25) for p in (1, 2, 3) for v in (3, 4)]
+
+    def exhaustive_specs(self, tier, seed):
+        specs = [("codes", ci, ka) for ci in range(len(self.CFGS)) for ka in (0, 7)]
+        specs += self.product_specs("hs", self.CFGS[1:5:3] if tier == "quick" else self.CFGS, None, self.EX_ALPHA,
+                                    4 if tier == "quick" else 5, None, nsplit=1)
+        return specs
+
+    def run_exhaustive(self, spec, res):
+        if spec[0] == "codes":
+            _, ci, ka = spec
+            cfg = self.CFGS[ci]
+            n = 0
+            for code in range(256):
+                for sp in (0, 1):
+                    ops = [("build", 0), ("handlers", 0, 7), ("connect", 0, ka, 1, 0), ("rx", 0, "CONNACK", code, sp),
+                           ("lose", 0, 0), ("idle", 50.0)]
+                    case = (cfg, ops)
+                    res.add("exhaustive:codes", case, self.check_case(case))
+                    n += 1
+            res.exhaustive["codes/cfg%d/ka%d" % (ci, ka)] = n
+            return res
+        pre = [("build", 0), ("handlers", 0, 7), ("connect", 0, 7 if spec[2] % 2 else 0, 1, 0)]
+        return self.run_product(spec, res, self.CFGS, pre, self.EX_ALPHA, [("idle", 100.0)])
+
+
+def o_retrytail(ad, a, b, c):
+    return [("retrytail", ad, 3 + a % 8, 300)]
+
+
+T_RETRY = G.Table([
+    (8, G.o_publish_q12), (4, G.o_subscribe), (4, G.o_unsubscribe), (12, G.o_fire_many), (3, G.o_advance),
+    (4, G.o_pubrec), (2, G.o_ack_good), (2, G.o_timeout), (2, G.o_bandwidth), (1, G.o_window),
+    (1, G.o_lose_reconnect_persist), (1, o_retrytail), (1, G.o_publish),
+])
+
+
+class C08(SessionProp):
+    id = "C08"
+    monitor = staticmethod(M.mon_c08)
+    table = T_RETRY
+    max_words = 45
+    pre_kwargs = dict(keepalives=(0, 0, 0, 0, 60))
+    rule = ("Histories over QoS 1/2 publishes (payload 0..20 kB), subscribe, unsubscribe, PUBREC (so that PUBREL "
+            "is outstanding), runs of 1..12 timer expiries, setTimeout 1..1024, setBandwith 1..1e7 x factor 1..4, "
+            "both protocol versions, acks for other packets, window changes, persistent reconnects, and a retry "
+            "tail that lets timers fire until every outstanding packet was seen 3..10 more times. Oracle over the "
+            "time-stamped wire log per packet and connection: first transmission DUP=0, repeats byte-identical "
+            "except DUP (set for PUBLISH always, for the others exactly under 3.1), repeats only inside timer "
+            "firings, gap >= initial timeout in force when first sent, PUBLISH gaps non-decreasing (jitter "
+            "constant within a case), no exception from a timer, every unacknowledged packet on a live connection "
+            "has a timer. Non-trivial = some packet repeated at least twice.")
+
+    def strategy(self, tier):
+        base = SessionProp.strategy(self, tier)
+
+        def add_tail(case):
+            cfg, ops = case
+            return (cfg, ops + [("retrytail", 0, 4, 400)])
+        return base.map(add_tail)
+
+
+class C13(SessionProp):
+    id = "C13"
+    monitor = staticmethod(M.mon_c13)
+    table = T_MIX
+    max_words = 45
+    tail = (("settle", 0), ("idle", 5000.0))
+    rule = ("Mixture histories (all profiles, both session modes, requests in every state that accepts them, acks, "
+            "expiries, losses, reconnects, publish before CONNACK) followed by the broker answering everything and "
+            "5000 s of virtual time with every due timer fired. Oracle after every step: nothing is written for a "
+            "request whose Deferred has fired; nothing is written to a transport reported lost; the number of "
+            "pending timers never exceeds unacknowledged packets on live connections + undelivered onDisconnection "
+            "notifications + running CONNACK timers + 2 per connected protocol with keepalive on. Non-trivial = a "
+            "settled request followed by >= 1 s of virtual time, or a loss with timers pending.")
+
+
+def o_ping_in_time(ad, a, b, c):
+    # fire the next timer instant(s), then answer
+    return [("fire", 1), ("rx", ad, "PINGRESP")]
+
+
+def o_ping_late(ad, a, b, c):
+    return [("fire", 1 + a % 3), ("rx", ad, "PINGRESP")]
+
+
+def o_pingrun(ad, a, b, c):
+    return [("pingrun", ad, 2 + a % 30, b % 4)]
+
+
+T_KA = G.Table([
+    (10, o_ping_in_time), (4, o_ping_late), (6, G.o_pingresp), (6, G.o_advance), (4, G.o_fire), (3, o_pingrun),
+    (3, G.o_publish), (2, G.o_ack_good), (2, G.o_lose), (3, G.o_reconnect), (1, G.o_disconnect), (1, G.o_subscribe),
+])
+
+
+class C15(SessionProp):
+    id = "C15"
+    monitor = staticmethod(M.mon_c15)
+    table = T_KA
+    max_words = 30
+    tail = (("advance", 12),)
+    pre_kwargs = dict(keepalives=(0, 1, 2, 5, 7, 60, 65535, 3), connack=(True, True, True, True, False))
+    rule = ("Histories with keepalive in {0,1,2,3,5,7,60,65535}: PINGRESP in time, exactly at the deadline, late, "
+            "never, twice or unsolicited (also with keepalive 0), other traffic, runs of up to 30 answered periods, "
+            "loss and reconnect with another keepalive. Oracle over the time-stamped wire log: from CONNACK to the "
+            "end of the connection consecutive PINGREQs <= k apart; an unanswered PINGREQ leads to abort no later "
+            "than k after it; if every PINGREQ is answered before its deadline no timer closes the connection; "
+            "keepalive 0 never pings; nothing after the loss; no exception. Non-trivial = >= 3 periods, a late/"
+            "double/unsolicited response, or a reconnect.")
+
+
 class C17(SessionProp):
     id = "C17"
     monitor = staticmethod(M.mon_c17)
@@ -324,3 +529,9 @@ _reg(C05)
 _reg(C10)
 _reg(C09)
 _reg(C18)
+_reg(C07)
+_reg(C06)
+_reg(C04)
+_reg(C08)
+_reg(C13)
+_reg(C15)
